@@ -116,6 +116,21 @@ func main() {
 			record(s, res)
 		}
 	}
+	if only < 0 || only >= 2*probeBase {
+		// NATS reply sizes around the server's output limit, byte by byte
+		for i, proto := range rig.Protocols {
+			natsBoundary(2*probeBase+10*i, proto, broker, func(s *seqSpec) *seqResult {
+				if only >= 0 && s.id != only && s.id+1 != only {
+					return nil
+				}
+				mark("S", s)
+				res := runSequence(s, broker)
+				run.Add("probe_sequences", 1)
+				record(s, res)
+				return res
+			})
+		}
+	}
 	if os.Getenv("C14_RESTRICT_JSON_STREAM") != "" {
 		restrict = true
 	}
